@@ -356,6 +356,8 @@ class Calls:
                     pass
         contract = self.engine.contract_for(fi.qualname)
         unit = self.unit
+        if any(fi.qualname.startswith(p) for p in getattr(unit, "pure", ())):
+            return self.call_uninterpreted(fi, env, node, fr)
         use_contract = False
         if fi.qualname in getattr(unit, "opaque", ()):
             use_contract = True
@@ -368,6 +370,26 @@ class Calls:
         if use_contract:
             return self.call_by_contract(fi, contract, env, node, fr)
         return self.call_inline(fi, env, node, fr, closure)
+
+    def call_uninterpreted(self, fi: FuncInfo, env: Dict[str, V], node: Any, fr: Frame) -> V:
+        """A pure function the proof must not depend on: an uninterpreted function of its arguments."""
+        ts = []
+        for v in env.values():
+            if isinstance(v, VOpt):
+                ts.append(v.isnone)
+                v = v.val
+            if isinstance(v, (VClassRef, VFuncRef)):
+                continue
+            ts.append(v.ident if isinstance(v, VExt) else self.key_term(v))
+        ret = self.mk_sym(fi.node.returns, fi.module, "$probe")
+        name = "pure_" + fi.qualname.replace(":", ".")
+        if isinstance(ret, VStr):
+            return VStr([z3.Function(name, *[t.sort() for t in ts], SEQ)(*ts)])
+        if isinstance(ret, VInt):
+            return VInt(z3.Function(name, *[t.sort() for t in ts], z3.IntSort())(*ts))
+        if isinstance(ret, VBool):
+            return VBool(z3.Function(name, *[t.sort() for t in ts], z3.BoolSort())(*ts))
+        raise Unsupported(f"uninterpreted call of {fi.qualname}: return type")
 
     def all_concrete(self, vals: List[V]) -> Optional[List[Any]]:
         out: List[Any] = []
@@ -507,6 +529,8 @@ class Calls:
                 continue
         if contract is not None:
             for nm, ex in contract.ensures:
+                if any(w in ex for w in ("fs_trace(", "final(", "appended(", "appended_count(", "dict_writes(")):
+                    continue  # about the callee's own ghost state: meaningless in the caller's frame
                 try:
                     self.assume_term(self.truthy(self.eval_spec(ex, cfr)))
                 except Unsupported as e:
